@@ -112,8 +112,34 @@ func (x *exec) call(fr *frame, s *State, cc *ssa.CallCommon, instr ssa.Value, po
 			}
 		}
 	}
+	if x.con != nil && x.con.Claims["sigma"] && len(args) == 0 && resT == nil {
+		// C20: calling a stored change closure transforms the abstract client state `$sigma` by the
+		// uninterpreted app(f, sigma); it may write anything except the history's own bookkeeping objects
+		// (A-CLOSURE-FRAME: change closures do not reach into the History that stores them)
+		keep := map[string]string{}
+		for n, t := range s.heap {
+			if strings.Contains(n, "utils.History") || strings.Contains(n, "utils.HeightChanges") || strings.Contains(n, "utils.change") || n == "alive" {
+				keep[n] = t
+			}
+		}
+		sg := x.sigmaGet(s)
+		x.havocAll(s)
+		for n, t := range keep {
+			s.heap[n] = t
+		}
+		x.c.Fun("sigma!app", []string{"Int", x.sigmaSort()}, x.sigmaSort())
+		x.h.set(s, sigmaName, x.sigmaSort(), App("sigma!app", x.term(fv), sg))
+		x.note("A-CLOSURE-FRAME: a stored change closure is an uninterpreted transformer of the client state and does not touch the history's own objects")
+		return &Val{}
+	}
 	return x.unknownCall(fr, s, "dynamic call "+cc.Value.Name(), args, resT, pos)
 }
+
+const sigmaName = "ghost!sigma"
+
+func (x *exec) sigmaSort() string { return x.c.SortOf(types.Typ[types.Int]) }
+
+func (x *exec) sigmaGet(s *State) string { return x.h.get(s, sigmaName, x.sigmaSort()) }
 
 func sharesProp(a, b []string) bool {
 	for _, p := range a {
@@ -513,6 +539,20 @@ func (x *exec) applyModifies(s *State, con *Contract, env *Env, args []*Val) {
 		if m.Text == "*" {
 			x.havocOrigins(s, args)
 			x.havocAll(s)
+			return
+		}
+		if m.Text == "$client" {
+			// the callee runs stored change closures: anything may change except the history's own objects
+			keep := map[string]string{}
+			for n, t := range s.heap {
+				if strings.Contains(n, "utils.History") || strings.Contains(n, "utils.HeightChanges") || strings.Contains(n, "utils.change") || n == "alive" {
+					keep[n] = t
+				}
+			}
+			x.havocAll(s)
+			for n, t := range keep {
+				s.heap[n] = t
+			}
 			return
 		}
 	}
